@@ -11,12 +11,13 @@ def fgrid(tier, seed):
     reps = ['i8', 'u8', 'i16', 'u16', 'i32', 'u32', 'i64', 'u64', 'i128', 'u128']
     out = [('i16', -8, 2, 'f32'), ('u8', -4, 2, 'f64'), ('i32', -16, 2, 'f32'), ('i64', -31, 2, 'f64'), ('i32', 0, 2, 'f80'),
            ('u32', 10, 2, 'f32'), ('i16', -1, 10, 'f64'), ('i64', -70, 2, 'f80'), ('u64', 70, 2, 'f64'), ('i8', -7, 2, 'f32'),
+           ('i8', 63, 2, 'f64'), ('i32', -63, 2, 'f32'), ('u16', 63, 2, 'f80'), ('i64', -64, 2, 'f64'), ('i16', 62, 2, 'f32'), ('u8', 31, 2, 'f32'), ('i16', -32, 2, 'f64'),
            ('u128', -10, 2, 'f32'), ('i128', -40, 2, 'f32'), ('u128', -64, 2, 'f64'), ('i128', 0, 2, 'f80')]
-    n = 24 if tier == 'quick' else 96
+    n = 31 if tier == 'quick' else 110
     while len(out) < n:
         r = rnd.choice(reps)
         rx = rnd.choice([2, 2, 2, 2, 10])
-        e = rnd.choice([-70, -53, -40, -31, -24, -16, -8, -4, -1, 0, 1, 5, 20, 40, 70]) if rx == 2 else rnd.choice([-4, -2, -1, 0, 1, 2])
+        e = rnd.choice([-70, -64, -63, -62, -53, -40, -32, -31, -24, -16, -15, -8, -4, -1, 0, 1, 5, 15, 16, 20, 31, 32, 40, 62, 63, 64, 70]) if rx == 2 else rnd.choice([-4, -2, -1, 0, 1, 2])
         c = (r, e, rx, rnd.choice(list(FT)))
         if c not in out:
             out.append(c)
